@@ -354,7 +354,11 @@ class _AcceptElement(HeaderElement):
 
 		media_type, params = cls.parseparams(media_range)
 		if qvalue is not None:
-			params["q"] = bytes(qvalue)
+			params[b"q"] = qvalue.encode_rfc2047(qvalue.value)
+			for key, value in iteritems(qvalue.params):  # accept-ext
+				if key in params:
+					raise InvalidHeader(_(u'Parameter given twice: %r'), key.decode('ISO8859-1'))
+				params[key] = value
 
 		return cls(media_type.decode(encoding), params)
 
